@@ -10,6 +10,7 @@ package main
 
 import (
 	"context"
+	"errors"
 	"fmt"
 	"math/rand"
 	"regexp"
@@ -227,7 +228,7 @@ func do(kv chord.KVProvider, g int, key string, i in) rec {
 // ---- one round ----------------------------------------------------------------------------
 
 type stats struct {
-	ops, partitions, overlaps, conflicts, races, appendRaces, leaseRaces, listAnomalies atomic.Int64
+	ops, partitions, overlaps, conflicts, races, appendRaces, leaseRaces, expiredRaces, listAnomalies atomic.Int64
 }
 
 var st stats
@@ -578,7 +579,7 @@ func raceKey(rp racelog.Report) string {
 
 func main() {
 	r := ev.Start("C18", "exploration")
-	r.SetRule("a round = 4/8/12/16 goroutines released from a barrier, each issuing 3-7 PRNG operations (Put of unique values, Delete, Get, PrefixAppend/Remove/Contains/List over 3 children, Acquire/Renew/Release with own, foreign and stale tokens, TTL 1h) on 2 fresh keys of one real backend; 1/6 of the rounds start with all goroutines appending the same child, 1/6 with all acquiring the same free lease (exactly-once monitors); after the join the three keyspaces of both keys are read. A case = one (key, keyspace) history checked by porcupine (call/return stamped by an atomic logical clock) or one exactly-once monitor; distinct+non-trivial by (backend, keyspace, overlap class measured from the stamps, whether documented rejections occurred, size class)")
+	r.SetRule("a round = 4/8/12/16 goroutines released from a barrier, each issuing 3-7 PRNG operations (Put of unique values, Delete, Get, PrefixAppend/Remove/Contains/List over 3 children, Acquire/Renew/Release with own, foreign and stale tokens, TTL 1h) on 2 fresh keys of one real backend; 1/6 of the rounds start with all goroutines appending the same child, 1/6 with all acquiring the same free lease (exactly-once monitors); after the join the three keyspaces of both keys are read; plus 400 (thorough 4000) 'expired lease acquired by all at once' races per backend (1 s leases left to run out for 1.15 s of real time, then 2-16 goroutines acquire each from a barrier: exactly one wins). A case = one (key, keyspace) history checked by porcupine (call/return stamped by an atomic logical clock) or one exactly-once monitor; distinct+non-trivial by (backend, keyspace, overlap class measured from the stamps, whether documented rejections occurred, size class)")
 	r.Assume("schedules are whatever the Go scheduler produces under load (barrier start, GOMAXPROCS goroutines); no schedule is forced")
 	r.Assume("lease part is timeless (TTL 1h); sequential models written from spec/chord/kv.go: a Put/Delete rejected with ErrKVSimpleConflict has no effect")
 	race := racelog.Enabled()
@@ -631,6 +632,69 @@ func main() {
 		}
 	}
 	wg.Wait()
+	// an EXPIRED lease acquired by all at once: a previous holder took the lease for the minimum
+	// TTL (1 s) and went away; after it has certainly run out (the goroutines sleep 1.15 s of real
+	// time — sleeping longer than asked only makes it more expired) G goroutines leave a barrier
+	// and acquire it: exactly one may win. All leases of a backend run out during the same wait.
+	nExp := r.Pick(400, 4000)
+	for _, be := range backends {
+		s, err := kvlab.Open(be, "", kvlab.RealHash)
+		if err != nil {
+			r.Inconclusive(fmt.Sprintf("open %s: %v", be, err))
+			continue
+		}
+		ctx := context.Background()
+		var names []string
+		for i := 0; i < nExp; i++ {
+			name := fmt.Sprintf("%s-expired-lease-%d", be, i)
+			if !r.WantCase(name) {
+				continue
+			}
+			if _, err := s.KV.Acquire(ctx, []byte(name), time.Second); err != nil {
+				r.Inconclusive(name + ": the previous holder could not acquire the fresh lease: " + err.Error())
+				continue
+			}
+			names = append(names, name)
+		}
+		time.Sleep(1150 * time.Millisecond)
+		for _, name := range names {
+			rng := r.Rand(name)
+			key := []byte(name)
+			G := []int{2, 4, 8, 16}[rng.Intn(4)]
+			errs := make([]error, G)
+			var start, done sync.WaitGroup
+			start.Add(1)
+			for g := 0; g < G; g++ {
+				done.Add(1)
+				go func(g int) {
+					defer done.Done()
+					start.Wait()
+					_, errs[g] = s.KV.Acquire(ctx, key, time.Hour)
+				}(g)
+			}
+			start.Done()
+			done.Wait()
+			okN, otherN := 0, 0
+			var outs []string
+			for g, e := range errs {
+				switch {
+				case e == nil:
+					okN++
+				case errors.Is(e, chord.ErrKVLeaseConflict):
+				default:
+					otherN++
+				}
+				outs = append(outs, fmt.Sprintf("g%d:%v", g, e))
+			}
+			st.expiredRaces.Add(1)
+			r.Case(fmt.Sprintf("%s/acquire-expired-lease/g%d", be, G))
+			if okN != 1 || otherN != 0 {
+				r.Violation("exactly-once/"+be+"/acquire-expired-lease", name, fmt.Sprintf("%s: %d goroutines acquired the same EXPIRED lease at once: %d succeeded (want exactly 1), %d returned something other than a lease conflict", be, G, okN, otherN), outs)
+			}
+		}
+		s.Destroy()
+	}
+	r.Count("rounds_expired_lease_acquired_by_all", st.expiredRaces.Load())
 	r.Count("operations_recorded", st.ops.Load())
 	r.Count("histories_checked", st.partitions.Load())
 	r.Count("overlapping_operation_pairs", st.overlaps.Load())
